@@ -654,6 +654,11 @@ func createConnHandler(
 				ctx = metadata.NewOutgoingContext(ctx, md)
 			}
 
+			// Release the back-end call when this handler returns or the
+			// client's stream fails.
+			ctx, cancel := context.WithCancel(ctx)
+			defer cancel()
+
 			clientStream, err := cc.NewStream(ctx, sd, method)
 			if err != nil {
 				return err
@@ -669,26 +674,24 @@ func createConnHandler(
 				}
 			}
 
-			var inErr error
-			var wg sync.WaitGroup
 			if sd.ClientStreams {
-				wg.Add(1)
 				go func() {
 					for {
 						args := dynamicpb.NewMessage(argsDesc)
-						if inErr = stream.RecvMsg(args); inErr != nil {
+						if inErr := stream.RecvMsg(args); inErr != nil {
 							if inErr == io.EOF {
 								// The client finished sending: half-close the back-end stream.
 								clientStream.CloseSend() //nolint
+							} else {
+								cancel() // the client's stream failed: abort the call
 							}
 							break
 						}
 
-						if inErr = clientStream.SendMsg(args); inErr != nil {
+						if inErr := clientStream.SendMsg(args); inErr != nil {
 							break
 						}
 					}
-					wg.Done()
 				}()
 			}
 			var outErr error
@@ -710,12 +713,8 @@ func createConnHandler(
 			if isStreamError(outErr) {
 				return outErr
 			}
-			if sd.ClientStreams {
-				wg.Wait()
-				if isStreamError(inErr) {
-					return inErr
-				}
-			}
+			// The back-end has finished the call: its status is final whatever
+			// the client still sends, so don't wait for the client's stream to end.
 			trailer := clientStream.Trailer()
 			stream.SetTrailer(trailer)
 			return nil
